@@ -236,7 +236,7 @@ def observe(backend, timed, parts, stages, jobs):
 def _is_program_case(case):
     """('free' | 'history', backend, timed, spec, schedules): a replayable cross-backend program (judged by the oracle
     alone; the model does not decode it and answers BadCase, which is also what impl returns)."""
-    return isinstance(case, (tuple, list)) and len(case) == 5 and case[0] in ('free', 'history', 'partial', 'closure')
+    return isinstance(case, (tuple, list)) and len(case) == 5 and case[0] in ('free', 'history', 'partial', 'closure', 'mutzero')
 
 
 def impl(case):
@@ -553,6 +553,12 @@ def generate(rng, tier):
 
 def shrink_candidates(case):
     if _is_program_case(case):
+        if case[0] == 'mutzero':
+            data, slices, ops = case[3]
+            for i in range(len(ops)):
+                yield (case[0], case[1], case[2], (data, slices, ops[:i] + ops[i + 1:]), case[4])
+            if len(data) > 2:
+                yield (case[0], case[1], case[2], (data[:-1], slices, ops), case[4])
         if case[0] == 'closure':
             data, slices, how, steps = case[3]
             for i in range(len(steps)):
@@ -717,7 +723,9 @@ def extra_checks(rng, tier, workdir):  # pylint: disable=unused-argument
     yield from _free_checks(rng, n, have, None)
     yield from _history_checks(rng, n, have, None)
     yield from _partial_checks(rng, 2 * n, have)
-    yield from _closure_checks(rng, 2 * n, have + [b for b, m in ((9, cloudpickle), (10, dill)) if m is not None])
+    more = have + [b for b, m in ((9, cloudpickle), (10, dill)) if m is not None]
+    yield from _closure_checks(rng, 2 * n, more)
+    yield from _mutzero_checks(rng, n, more)      # (pysparkling has no combineByKey)
 
 
 FREE_NAMES = ['collect', 'count', 'second-collect', 'coalesce', 'sampleByKey', 'reduce', 'fold', 'aggregate', 'take',
@@ -743,6 +751,8 @@ def _judge_program(case):
             return _judge_partial(backend, spec, sched)
         if which == 'closure':
             return _judge_closure(backend, spec, sched)
+        if which == 'mutzero':
+            return _judge_mutzero(backend, spec, sched)
         return _judge_history(backend, timed, spec, sched, scratch)
     finally:
         shutil.rmtree(scratch, ignore_errors=True)
@@ -1212,6 +1222,175 @@ def _closure_checks(rng, n, have):
             case = ('closure', b, 0, spec, sched)
             o = _judge_program(case)
             _EXTRA['closure_backend_runs'] = _EXTRA.get('closure_backend_runs', 0) + 1
+            if o is not None:
+                yield (o[0], o[1], 'replayable: ./check C03 --replay <this file>', case)
+                if o[0].startswith('dummy:'):
+                    break
+
+
+# ---------------------------------------------------------------------------------------------------
+# aggregations with a MUTABLE zero value (list, set, dict, a counter object) and combine functions that work IN PLACE
+# and return their first argument, with keys that occur in several partitions.  Whenever a task or the driver takes
+# its copy of the zero value, every backend returns the plain-list meaning, and the caller's zero object is unchanged
+# after the job (each aggregation is run twice with the SAME zero object).
+class _Tally:
+    """A counter object: pickled by reference to this module's class."""
+    def __init__(self):
+        self.seen = {}
+
+    def add(self, v):
+        self.seen[v] = self.seen.get(v, 0) + 1
+        return self
+
+    def merge(self, other):
+        for k, c in other.seen.items():
+            self.seen[k] = self.seen.get(k, 0) + c
+        return self
+
+    def __eq__(self, other):
+        return isinstance(other, _Tally) and other.seen == self.seen
+
+    def __repr__(self):
+        return f'_Tally({sorted(self.seen.items())})'
+
+
+MUTZERO_OPS = ['aggregateByKey-list', 'aggregateByKey-set', 'aggregateByKey-dict', 'aggregateByKey-object', 'foldByKey-list',
+               'aggregate-list', 'aggregate-dict', 'fold-list', 'aggregate-object']
+
+
+def _mutzero_spec(rng):
+    data = [(rng.randint(0, 2), rng.randint(0, 5)) for _ in range(rng.choice([3, 4, 6, 9]))]
+    slices = rng.randint(2, 6)
+    ops = rng.sample(MUTZERO_OPS, rng.randint(2, 4))
+    return (data, slices, ops)
+
+
+def _counts(vs):
+    c = {}
+    for v in vs:
+        c[v] = c.get(v, 0) + 1
+    return c
+
+
+def _mutzero_plain(data, op):
+    keys = sorted({k for k, _ in data})
+    per = {k: [v for kk, v in data if kk == k] for k in keys}
+    vals = [v for _, v in data]
+    if op in ('aggregateByKey-list', 'foldByKey-list'):
+        return [(k, per[k]) for k in keys]
+    if op == 'aggregateByKey-set':
+        return [(k, sorted(set(per[k]))) for k in keys]
+    if op == 'aggregateByKey-dict':
+        return [(k, sorted(_counts(per[k]).items())) for k in keys]
+    if op == 'aggregateByKey-object':
+        return [(k, sorted(_counts(per[k]).items())) for k in keys]
+    if op in ('aggregate-list', 'fold-list'):
+        return vals
+    return sorted(_counts(vals).items())       # aggregate-dict, aggregate-object
+
+
+def _dict_add(a, v):
+    a[v] = a.get(v, 0) + 1
+    return a
+
+
+def _dict_merge(a, b):
+    for k, c in b.items():
+        a[k] = a.get(k, 0) + c
+    return a
+
+
+def _mutzero_run(r, op):
+    """Returns (canonical value, the caller's zero object is unchanged)."""
+    append = lambda a, v: a.append(v) or a          # noqa: E731
+    extend = lambda a, b: a.extend(b) or a          # noqa: E731
+    if op == 'aggregateByKey-list':
+        zero = []
+        v = sorted(r.aggregateByKey(zero, append, extend).collect())
+        return [(k, list(x)) for k, x in v], zero == []
+    if op == 'aggregateByKey-set':
+        zero = set()
+        v = r.aggregateByKey(zero, lambda a, x: a.add(x) or a, lambda a, b: a.update(b) or a).collect()
+        return sorted((k, sorted(x)) for k, x in v), zero == set()
+    if op == 'aggregateByKey-dict':
+        zero = {}
+        v = r.aggregateByKey(zero, _dict_add, _dict_merge).collect()
+        return sorted((k, sorted(x.items())) for k, x in v), zero == {}
+    if op == 'aggregateByKey-object':
+        zero = _Tally()
+        v = r.aggregateByKey(zero, lambda a, x: a.add(x), lambda a, b: a.merge(b)).collect()
+        return sorted((k, sorted(x.seen.items())) for k, x in v), zero == _Tally()
+    if op == 'foldByKey-list':
+        zero = []
+        v = sorted(r.mapValues(lambda x: [x]).foldByKey(zero, extend).collect())
+        return [(k, list(x)) for k, x in v], zero == []
+    if op == 'aggregate-list':
+        zero = []
+        return list(r.values().aggregate(zero, append, extend)), zero == []
+    if op == 'aggregate-dict':
+        zero = {}
+        return sorted(r.values().aggregate(zero, _dict_add, _dict_merge).items()), zero == {}
+    if op == 'fold-list':
+        zero = []
+        return list(r.values().map(lambda x: [x]).fold(zero, extend)), zero == []
+    zero = _Tally()
+    return sorted(r.values().aggregate(zero, lambda a, x: a.add(x), lambda a, b: a.merge(b)).seen.items()), zero == _Tally()
+
+
+def _mutzero_program(spec):
+    data, slices, ops = spec
+
+    def program(sc):
+        r = sc.parallelize([tuple(p) for p in data], slices)
+        out = []
+        for op in ops:
+            for _ in range(2):                 # twice: a zero object polluted by the first run shows in the second
+                try:
+                    value = _mutzero_run(r, op)
+                except Exception as e:  # pylint: disable=broad-except
+                    value = (('raised', type(e).__name__), True)
+                out.append((op, value[0], value[1]))
+        return out
+    return program
+
+
+def _judge_mutzero(backend, spec, sched):
+    program = _mutzero_program(spec)
+    want, err = _default_executor(('mutzero', spec), lambda: program(make_context(2, 0)[0]))
+    if err:
+        return ('dummy:mutable-zero-program-raised', err)
+    got = want
+    bname = BACKEND_NAMES[backend]
+    if backend != 2:
+        try:
+            got = program(make_context(backend, 0, sched)[0])
+        except Exception as e:  # pylint: disable=broad-except
+            return (f'{bname}:mutable-zero-program-raised:{type(e).__name__}', 'program raised on this backend only')
+    for n_step, (g, w) in enumerate(zip(got, want)):
+        op = w[0]
+        run = 'second-run' if n_step % 2 else 'first-run'
+        plain = _mutzero_plain(spec[0], op)
+        if g[1] != plain:
+            return (f'{bname}:mutable-zero:{op}:{run}:differs-from-plain-list-meaning',
+                    f'{op} ({run}) returned {g[1]!r}; the plain-list meaning is {plain!r}')
+        if not g[2]:
+            return (f'{bname}:mutable-zero:{op}:{run}:callers-zero-value-was-modified',
+                    f'{op} ({run}): the zero object handed in by the caller is no longer empty after the job')
+        if g != w:
+            return (f'{bname}:mutable-zero:{op}:{run}:differs-from-default-executor', f'{g[1:]!r} instead of {w[1:]!r}')
+    return None
+
+
+def _mutzero_checks(rng, n, have):
+    for _ in range(n):
+        spec = _mutzero_spec(rng)
+        _EXTRA['mutable_zero_programs'] = _EXTRA.get('mutable_zero_programs', 0) + 1
+        for b in [2] + have:
+            sched = ([[rng.randrange(spec[1]) for _ in range(rng.randint(0, 40))] for _ in range(6 * len(spec[2]) + 4)]
+                     if b in (0, 1) else [])
+            case = ('mutzero', b, 0, spec, sched)
+            o = _judge_program(case)
+            _EXTRA['mutable_zero_backend_runs'] = _EXTRA.get('mutable_zero_backend_runs', 0) + 1
             if o is not None:
                 yield (o[0], o[1], 'replayable: ./check C03 --replay <this file>', case)
                 if o[0].startswith('dummy:'):
